@@ -22,7 +22,7 @@ Fixpoint pick_objs (api : list obj) (names : list string) : option (list obj) :=
 
 Definition agree (c : case) : bool :=
   let w := run empty_world (map fst (k_steps c)) in
-  (agree_steps [] [] empty_world (k_steps c)
+  (agree_steps [] [] false empty_world (k_steps c)
    && list_eqb view_eqb (map (view_of (k_probes c) (w_gw w)) (k_clusters c)) (ob_hot (k_obs c))
    && match pick_objs (w_api w) (k_latest c) with
       | Some objs =>
